@@ -36,8 +36,40 @@ SYMMETRIC = {'equivalent', 'complement', 'incompatible', 'subcontrary', 'orthogo
 MAXC = {'quick': 400, 'thorough': 1200}
 
 
+def context_level(ctx, unions):
+    """What the context itself says about object sets (no lattice involved): upper covers, closure,
+    common properties - as label-level sets."""
+    out = {}
+    for u in unions:
+        objs = sorted(u)
+        nb = ctx.neighbors(objs)
+        e, i = ctx[objs] if objs else (ctx.extension(ctx.intension([])), ctx.intension([]))
+        out[u] = (frozenset((frozenset(x), frozenset(y)) for x, y in nb), frozenset(e), frozenset(i),
+                  frozenset(ctx.intension(objs)))
+    COL.count('context_level_answers_recorded', len(out))
+    return out
+
+
+def _unions(pairs):
+    seen = []
+    for a, b in pairs:
+        u = a | b
+        if u not in seen:
+            seen.append(u)
+        if len(seen) >= 25:
+            break
+    return seen
+
+
 def observe(ctx, rng_seed, limit, pairs_for=None):
-    """Observation log of one context through the public API (label level)."""
+    """Observation log of one context through the public API (label level).
+
+    The context-level answers about unions of extents (``context_level``) are taken *before* the lattice
+    exists on transformed contexts and *after* every lattice query on the base context: the same
+    statements must come out whatever was asked before."""
+    early = None
+    if pairs_for is not None and pairs_for[0] == 'e' and 'lattice' not in vars(ctx):
+        early = context_level(ctx, _unions(pairs_for[1]))
     lat = ctx.lattice
     members = list(lat)
     if len(members) > limit:
@@ -81,6 +113,12 @@ def observe(ctx, rng_seed, limit, pairs_for=None):
     log['relations'] = {(r.kind, frozenset((r.left, r.right))) if r.kind in SYMMETRIC
                         else (r.kind, r.left, r.right) for r in rel}
     log['relations_n'] = len(rel)
+    if early is not None:
+        log['ctx_level'] = early
+    elif pairs_for is None:
+        log['ctx_level'] = context_level(ctx, _unions(log['pairs']))
+    else:
+        log['ctx_level'] = None
     COL.count('observations_recorded', 4 + len(keyed) * 2)
     return log
 
@@ -224,6 +262,9 @@ def run_case(concepts, case, spec):
                 differ('permutation', f'{key}-changed', base[key], log[key])
         if base['order'] is not None and log['order'] != base['order']:
             differ('permutation', 'order-changed', base['order'], log['order'])
+        if log['ctx_level'] is not None and log['ctx_level'] != base['ctx_level']:
+            differ('permutation', 'context-level-answers-depend-on-what-was-asked-before-or-on-the-arrangement',
+                   base['ctx_level'], log['ctx_level'])
         for g in ('fcbo', 'fcbo_dual'):
             if canon(log[g]) != canon(base[g]):
                 differ('permutation', f'{g}-concepts-changed', set(base[g]), set(log[g]))
